@@ -171,9 +171,8 @@ class MafRecord(MutableMapping, LocatableByAllele):
                 raise ValueError(
                     f"Column index '{column.column_index}' already holds column '{existing.key}'"
                 )
-        self.__columns_dict[key] = column
-
-        # extend the list if the index is out of range
+        # extend the list if the index is out of range (this fails for an
+        # index beyond what memory can hold: nothing has been stored yet)
         if len(self) <= column.column_index:
             num_more = column.column_index - len(self) + 1
             self.__columns_list.extend([None] * num_more)
@@ -181,6 +180,7 @@ class MafRecord(MutableMapping, LocatableByAllele):
         # may be less than the number of items in the list.  Use validate to
         # catch this later.
         self.__columns_list[column.column_index] = column
+        self.__columns_dict[key] = column
 
     def __delitem__(self, key: TKey) -> None:
         """
